@@ -12,10 +12,13 @@ type HashingReaderWrapper struct {
 	Reader             *bufio.Reader
 	CalculateSignature bool
 	hash               hash.Hash
+	//BytesRead number of bytes consumed so far via Read and Discard
+	BytesRead int64
 }
 
 func (t *HashingReaderWrapper) Read(bytes []byte) (int, error) {
 	byteCount, err := t.Reader.Read(bytes)
+	t.BytesRead += int64(byteCount)
 	if t.CalculateSignature == true && err == nil {
 		if byteCount == len(bytes) {
 			t.hash.Write(bytes)
@@ -50,7 +53,8 @@ func (t HashingReaderWrapper) Reset(reader io.Reader) {
 }
 
 func (t *HashingReaderWrapper) Discard(offset int64) error {
-	_, err := t.Reader.Discard(int(offset))
+	discarded, err := t.Reader.Discard(int(offset))
+	t.BytesRead += int64(discarded)
 	if err != nil {
 		return err
 	}
